@@ -77,6 +77,11 @@ extern MPT_STRUCT(buffer) *mpt_array_reserve(MPT_STRUCT(array) *arr, size_t len,
 		arr->_buf = reserve;
 		return reserve;
 	}
+	/* get the space first: a failure leaves the content alone */
+	if (!(buf = buf->_vptr->detach(buf, len))) {
+		return buf;
+	}
+	arr->_buf = buf;
 	/* clear incompatible data on non-shared buffer */
 	if ((old != traits)) {
 		void (*fini)(void *) = 0;
@@ -93,11 +98,6 @@ extern MPT_STRUCT(buffer) *mpt_array_reserve(MPT_STRUCT(array) *arr, size_t len,
 			buf->_used = 0;
 		}
 	}
-	/* existing data can be reused */
-	if (!(buf = buf->_vptr->detach(buf, len))) {
-		return buf;
-	}
-	arr->_buf = buf;
 	buf->_content_traits = traits;
 	
 	return buf;
